@@ -72,12 +72,11 @@ static unsigned vss_elem(unsigned dt) {
 }
 
 static std::string gen(const std::string &prop, uint64_t base, uint64_t idx, bool thorough) {
-    (void)thorough;
     uint64_t seed = sim::run_seed(base, ("reent/" + prop).c_str(), idx);
     Rng r(seed);
     std::string o;
     auto line = [&](const std::string &l) { o += l; o += '\n'; };
-    int ntasks = (int)r.range(2, 4);
+    int ntasks = (int)r.range(2, thorough ? 5 : 4);
     std::string sched;
     switch (idx % 6) {
     case 0: sched = "none"; break;
@@ -90,15 +89,37 @@ static std::string gen(const std::string &prop, uint64_t base, uint64_t idx, boo
     line(strf("plan v1 engine=reent prop=%s seed=0x%llx idx=%llu", prop.c_str(), (unsigned long long)seed, (unsigned long long)idx));
     line(strf("cfg tasks=%d sched=%s sseed=0x%llx", ntasks, sched.c_str(), (unsigned long long)r.next()));
     int next_obj = 0;
-    std::vector<std::string> objlines, calllines;
+    std::vector<std::string> objlines, calllines;  // (set-up calls come first in calllines)
     auto new_obj = [&](int task, size_t size, bool shared = false) {
         int id = next_obj++;
         objlines.push_back(strf("obj id=%d task=%d size=%zu seed=0x%llx gap=%d%s", id, task, size, (unsigned long long)r.next(), (int)r.below(4) * 4, shared ? " shared=1" : ""));
         return id;
     };
-    // the shared read-only PDU: a stream header or a well-formed VSS message is decided by the calls below
+    // the shared read-only PDU: a header of a random format, or (half of the runs) a well-formed VSS message that is
+    // built by set-up calls (task -1, before the callers start) and then decoded concurrently by all callers
     const BindFormat *shf = bind_formats[r.below(bind_nformats)];
-    int shared_obj = new_obj(-1, shf->spec_bytes, true);
+    int shared_obj;
+    bool shared_vss = r.coin();
+    unsigned sh_am = 0, sh_dt = 0, sh_plen = 0, sh_abytes = 0;
+    if (shared_vss) {
+        static const unsigned dts[] = {0, 1, 2, 3, 4, 5, 6, 7, 8, 9, 0xA, 0xB, 0x80, 0x81, 0x82, 0x83, 0x84, 0x85, 0x86, 0x87, 0x88, 0x89, 0x8A, 0x8B};
+        shf = find_format("Vss");
+        sh_am = (unsigned)r.below(2);
+        sh_dt = dts[r.below(24)];
+        sh_plen = sh_am == 1 ? 0 : (unsigned)r.range(0, 24);
+        sh_abytes = vss_is_var(sh_dt) ? (unsigned)r.range(0, 6) * vss_elem(sh_dt) : 0;
+        unsigned pathbytes = sh_am == 1 ? 4 : 2 + sh_plen, valbytes = vss_is_var(sh_dt) ? 2 + sh_abytes : vss_scalar_bytes(sh_dt);
+        unsigned total = 12 + pathbytes + valbytes, pad = (4 - total % 4) % 4;
+        shared_obj = new_obj(-1, total + pad, true);
+        int psrc = sh_am == 1 ? -1 : new_obj(-1, sh_plen ? sh_plen : 1, true);
+        int asrc = vss_is_var(sh_dt) ? new_obj(-1, sh_abytes ? sh_abytes : 1, true) : -1;
+        calllines.push_back(strf("call t=-1 fn=init obj=%d fmt=Vss via=cur", shared_obj));
+        calllines.push_back(strf("call t=-1 fn=vss_encode obj=%d obj2=%d obj3=%d a=%u b=0x%x c=%u d=%u v=0x%llx", shared_obj, psrc, asrc, sh_am, sh_dt, sh_plen, sh_abytes,
+                                 (unsigned long long)r.next()));
+        calllines.push_back(strf("call t=-1 fn=vss_pad obj=%d b=%u", shared_obj, total));
+    } else {
+        shared_obj = new_obj(-1, shf->spec_bytes, true);
+    }
     // per-task working set of field PDUs
     struct P { int obj; const BindFormat *f; };
     std::vector<std::vector<P>> pdus(ntasks);
@@ -109,7 +130,7 @@ static std::string gen(const std::string &prop, uint64_t base, uint64_t idx, boo
             pdus[t].push_back({new_obj(t, f->spec_bytes), f});
         }
     }
-    int ncalls = (int)r.range(10, 60) * ntasks;
+    int ncalls = (int)r.range(10, thorough ? 150 : 60) * ntasks;
     for (int i = 0; i < ncalls; i++) {
         int t = (int)r.below(ntasks);
         unsigned k = (unsigned)r.below(100);
@@ -139,6 +160,13 @@ static std::string gen(const std::string &prop, uint64_t base, uint64_t idx, boo
                 calllines.push_back(strf("call t=%d fn=get obj=%d fmt=%s f=%s via=%s", t, p.obj, f->name, fl->name, v[r.below(v.size())]));
             }
         } else if (k < 74) {  // read-only call on the shared PDU
+            if (shared_vss && r.coin()) {
+                int pdst = sh_am == 1 ? -1 : new_obj(t, sh_plen ? sh_plen : 1);
+                int adst = vss_is_var(sh_dt) ? new_obj(t, sh_abytes ? sh_abytes : 1) : -1;
+                calllines.push_back(strf("call t=%d fn=vss_decode obj=%d obj2=%d obj3=%d", t, shared_obj, pdst, adst));
+                if (r.coin()) calllines.push_back(strf("call t=%d fn=vss_pathlen obj=%d", t, shared_obj));
+                continue;
+            }
             const BindField *fl = &shf->fields[r.below(shf->nfields)];
             std::vector<const char *> v;
             if (fl->field_id >= 0 && shf->getfield) v.push_back("gen");
@@ -225,6 +253,7 @@ struct World {
     std::vector<Obj> objs;                 // sorted by address (allocation order)
     std::map<int, int> obj_index;          // id -> index
     std::vector<std::vector<Call>> prog;   // per task
+    std::vector<Call> setup;               // executed before the callers start (builds the shared read-only objects)
     std::vector<std::vector<uint64_t>> results;
     // scheduling
     std::string policy = "none";
@@ -462,16 +491,18 @@ static uint64_t do_call(const Call &c, bool &skipped) {
     Obj *o = obj(c.obj);
     if (!o) { skipped = true; return 0; }
     uint64_t res = 0;
-    int tid = w.tasks.cur()->id;
-    w.in_shared_call[tid] = o->shared;
-    auto enter = [&] { w.in_call[tid] = 1; w.calls++; };
-    auto leave = [&] { w.in_call[tid] = 0; };
+    int tid = w.tasks.cur() ? w.tasks.cur()->id : -1;  // -1: set-up phase (main context, not monitored)
+    if (tid >= 0) w.in_shared_call[tid] = o->shared;
+    auto enter = [&] { if (tid >= 0) w.in_call[tid] = 1; w.calls++; };
+    auto leave = [&] { if (tid >= 0) w.in_call[tid] = 0; };
+    // callers never hand a shared (read-only) object to a function that writes its argument
+    if (tid >= 0 && o->shared && c.fn != "get" && c.fn != "vss_decode" && c.fn != "vss_pathlen" && c.fn != "can_paylen" && c.fn != "can_payoff") { skipped = true; return 0; }
     if (c.fn == "init" || c.fn == "set" || c.fn == "get") {
         const BindFormat *f = find_format(c.fmt);
         if (!f || o->size < f->spec_bytes) { skipped = true; return 0; }
         if (c.fn == "init") {
             bool legacy = c.via == "legacy", legacy2 = c.via == "legacy2";
-            if ((legacy2 ? !f->legacy_init2 : legacy ? !f->legacy_init : !f->init) || o->shared) { skipped = true; return 0; }
+            if (legacy2 ? !f->legacy_init2 : legacy ? !f->legacy_init : !f->init) { skipped = true; return 0; }
             enter();
             if (legacy2) res = (uint64_t)f->legacy_init2(o->p, (unsigned)c.v); else if (legacy) res = (uint64_t)f->legacy_init(o->p); else f->init(o->p);
             leave();
@@ -480,7 +511,7 @@ static uint64_t do_call(const Call &c, bool &skipped) {
         const BindField *fl = find_field(f, c.field);
         if (!fl) { skipped = true; return 0; }
         if (c.fn == "set") {
-            if ((c.via == "gen" && (!f->setfield || fl->field_id < 0)) || (c.via == "ded" && !fl->set) || (c.via == "leg" && (!f->legacy_set || fl->field_id < 0)) || o->shared) { skipped = true; return 0; }
+            if ((c.via == "gen" && (!f->setfield || fl->field_id < 0)) || (c.via == "ded" && !fl->set) || (c.via == "leg" && (!f->legacy_set || fl->field_id < 0))) { skipped = true; return 0; }
             enter();
             if (c.via == "gen") f->setfield(o->p, fl->field_id, c.v);
             else if (c.via == "ded") fl->set(o->p, c.v);
@@ -589,6 +620,9 @@ static void init_arena() {
 static Snapshot run_phase(bool interleave) {
     World &w = *W;
     init_arena();
+    sim::g_tasks = nullptr;
+    w.tasks = sim::Tasks();
+    for (auto &c : w.setup) { bool sk; do_call(c, sk); }
     w.interleave = interleave;
     w.results.assign(w.prog.size(), {});
     w.tasks = sim::Tasks();
@@ -680,14 +714,14 @@ static void exec(const std::string &text, bool verbose) {
             w.objs.push_back(o);
         } else if (kv.op == "call") {
             Call c;
-            c.task = (int)kv.u64("t");
+            c.task = (int)kv.i64("t");
             if (c.task >= ntasks) continue;
             c.fn = kv.str("fn"); c.fmt = kv.str("fmt"); c.field = kv.str("f"); c.via = kv.str("via");
             c.obj = (int)kv.i64("obj", -1); c.obj2 = (int)kv.i64("obj2", -1); c.obj3 = (int)kv.i64("obj3", -1);
             c.a = kv.u64("a"); c.b = kv.u64("b"); c.c = kv.u64("c"); c.d = kv.u64("d"); c.v = kv.u64("v");
             if (c.fn == "vss_strarr") { c.a = kv.u64("n"); c.field = kv.str("lens"); c.objs = parse_ints(kv.str("srcs")); c.objs2 = parse_ints(kv.str("dsts")); }
-            // a task may only name its own objects or the shared one (keeps minimised plans meaningful)
-            w.prog[c.task].push_back(c);
+            if (c.task < 0) w.setup.push_back(c);
+            else w.prog[c.task].push_back(c);
         }
     }
     if (sim::g_shm) snprintf(sim::g_shm->context, sizeof sim::g_shm->context, "%s", prop.c_str());
@@ -702,6 +736,10 @@ static void exec(const std::string &text, bool verbose) {
                      return false;
                  }), pr.end());
     }
+    w.setup.erase(std::remove_if(w.setup.begin(), w.setup.end(), [&](const Call &c) {
+                      auto sh = [&](int id) { if (id < 0) return true; Obj *o = obj(id); return o && o->shared; };
+                      return !sh(c.obj) || !sh(c.obj2) || !sh(c.obj3) || !c.objs.empty();
+                  }), w.setup.end());
     // phase 1: sequential reference (monitor on, no preemption)
     w.rng.reseed(sseed);
     std::string saved_policy = w.policy;
